@@ -651,6 +651,16 @@ func (g *gen) eq() string {
 	if !g.o.Weird {
 		return "="
 	}
+	if g.n(0, 19, "fakeeq") == 0 {
+		// a byte that is not HTML white space next to the '=': after it the value is unquoted for a tokenizer even
+		// if a quote follows, before it the byte belongs to the attribute name
+		g.flag("fake-whitespace")
+		f := g.pick("fakeeqws", "\v", "\x00", "\x1f", "\u00a0", "\x08")
+		if g.coin("fakeeqside") {
+			return "=" + f
+		}
+		return f + "="
+	}
 	return g.pick("eq", "=", "=", "=", " =", "= ", " = ", "=\n", "\t=")
 }
 
